@@ -20,8 +20,10 @@ import ZodbModel.Reach
 namespace ZodbModel.Pack
 open ZodbModel
 
-abbrev Oid := Nat
-abbrev Tid := Nat
+/-- object ids and transaction ids are natural numbers (< 2^64 in the storage).  Notations, not
+    `abbrev`s, so that `omega` sees `Nat`. -/
+scoped notation "Oid" => Nat
+scoped notation "Tid" => Nat
 
 /-- One data record.  `data` is the record's pickle *resolved through its back pointer*
     (`none` = un-creation / deletion: `plen = 0 ∧ back = 0`, or a back pointer that ultimately
